@@ -401,7 +401,7 @@ macro "cinv_frame" : tactic =>
   `(tactic| (
              simp only [CInv_iff_K, proj_foldl, proj_inherit, proj_invalidateTags,
       proj_invalidatedDuringTaggingJob, proj_invalidateConverters, proj_setTag, proj_addRefBy,
-      proj_delRefBy, proj_attachConv, proj_detachConv, proj_markUpdate, proj_withTags, implies_true]
+      proj_delRefBy, proj_attachConv, proj_markUpdate, proj_withTags, implies_true]
              try simp only [← CInv_iff_K]))
 
 theorem CInv_addTag {s : St} (name color defn : String) (f : Facts) (st : Started) (h : CInv [] s) :
@@ -438,6 +438,19 @@ theorem CInv_updName {s : St} (name new : String) (st : Started) (h : CInv [] s)
   cinv_frame
   exact h
 
+/-- a detach may start a tagging job (`outputDropped`): the new locks are held by `jTag` -/
+theorem CInv_detachConv {p : List Nat} {s : St} (n c : String) (choice : Option String) (h : CInv p s) :
+    CInv p (detachConv s n c choice) := by
+  obtain ⟨s0, e, h' | h'⟩ := proj_detachConv s n c choice
+  · rw [h']; exact CInv_frame e h
+  · rw [h']; exact CInv_startTagging _ (CInv_frame e h)
+
+theorem CInv_foldl {β} {p : List Nat} (f : St → β → St) (hf : ∀ s x, CInv p s → CInv p (f s x))
+    (l : List β) (s : St) (h : CInv p s) : CInv p (l.foldl f s) := by
+  induction l generalizing s with
+  | nil => exact h
+  | cons a l ih => rw [List.foldl_cons]; exact ih _ (hf s a h)
+
 theorem CInv_updConv {s : St} (name : String) (convs : List String) (st : Started) (h : CInv [] s) :
     CInv [] (step s (.updConv name convs) st).1 := by
   simp only [step]
@@ -445,7 +458,7 @@ theorem CInv_updConv {s : St} (name : String) (convs : List String) (st : Starte
   all_goals first | exact h | skip
   apply CInv_startConverter
   cinv_frame
-  exact h
+  exact CInv_foldl _ (fun s c hs => CInv_detachConv name c st.tag hs) _ _ h
 
 theorem CInv_markAdd {s : St} (name : String) (ids : List Nat) (st : Started) (h : CInv [] s) :
     CInv [] (step s (.markAdd name ids) st).1 := by
@@ -471,7 +484,7 @@ theorem CInv_delTag {s : St} (name : String) (st : Started) (h : CInv [] s) :
   repeat' split
   all_goals first | exact h | skip
   cinv_frame
-  exact h
+  exact CInv_foldl _ (fun s c hs => CInv_detachConv name c st.tag hs) _ _ h
 
 
 /-- every transition preserves the invariant -/
